@@ -94,6 +94,7 @@ func (w *WatcherHub) Stream(input chan []*proto.Event) {
 			}
 		}
 		w.RUnlock()
+		verifhook.Yield("hub.fanout.done", len(slow))
 		// close dropped consumers before the next batch is broadcast, otherwise a
 		// consumer that frees some room in the meantime receives later batches
 		// after the one it missed
